@@ -370,10 +370,17 @@ class Padding(WidgetDecoration[WrappedWidget], typing.Generic[WrappedWidget]):
         elif self._width_type == WHSettings.GIVEN:
             maxcol = self._width_amount + self.left + self.right
         else:
-            maxcol = (
-                max(self._original_widget.pack((), focus=focus)[0] * 100 // self._width_amount, self.min_width or 1)
-                + self.left
-                + self.right
+            # FIXED render: the widget keeps its own width, the total is the one pack() reports
+            width = self._original_widget.pack((), focus=focus)[0]
+            return calculate_left_right_padding(
+                max(int(width * 100 / self._width_amount + 0.5), self.min_width or 1) + self.left + self.right,
+                self._align_type,
+                self._align_amount,
+                WHSettings.GIVEN,
+                width,
+                self.min_width,
+                self.left,
+                self.right,
             )
 
         return calculate_left_right_padding(
